@@ -450,6 +450,12 @@ VARIANTS = [
                 "new": "        MsgType.MVT_IP_ADDR: _IP_PAIR,\n        MsgType.MVT_IP_PORT"},
                {"file": PACK, "old": "        MsgType.MVT_IP_ADDR: (socket.inet_ntoa, socket.inet_aton),\n        # LLSD ints",
                 "new": "        MsgType.MVT_IP_ADDR: _IP_PAIR,\n        # LLSD ints"}]},
+    {"name": "P9 binary dates returned naive UTC (the fix the rule asks for)", "file": LLSD, "expect": "silent",
+     "old": "return datetime.datetime.fromtimestamp(seconds, tz=datetime.timezone.utc)",
+     "new": "return datetime.datetime.fromtimestamp(seconds, tz=datetime.timezone.utc).replace(tzinfo=None)"},
+    {"name": "P9 binary dates through utcfromtimestamp", "file": LLSD, "expect": "silent",
+     "old": "return datetime.datetime.fromtimestamp(seconds, tz=datetime.timezone.utc)",
+     "new": "return datetime.datetime.utcfromtimestamp(seconds)"},
     # ------------------------------------------------------------------ documented limits
     {"name": "X quaternion packed with two components (count still accepted by the constructor)", "file": PACK, "expect": "miss",
      "old": "MsgType.MVT_LLQuaternion: _make_llsd_tuplecoord_spec(Quaternion, needed_elems=3)",
